@@ -55,8 +55,8 @@ def analyse(ck, prog, fixture=False, use_base=False, tag=''):
     requests = []
     direct_sites = 0
     for name, fn in sorted(methods.items()):
-        if name == '__init__':
-            continue
+        if name.startswith('_'):
+            continue      # private helpers are not entry points; they are analysed inlined
         outs_ok = eng.run(name, OK, overrides=method_overrides(fn))
         results[(name, OK.name)] = outs_ok
         if any(port_writes(o.state.effects) for o in outs_ok) and name not in NOT_REQUESTS:
@@ -71,8 +71,8 @@ def analyse(ck, prog, fixture=False, use_base=False, tag=''):
     ck.floor('direct port.write sites', direct_sites, 1 if fixture else 6)
 
     for name, fn in sorted(methods.items()):
-        if name == '__init__':
-            continue
+        if name.startswith('_'):
+            continue      # private helpers are not entry points; they are analysed inlined
         loc = fn.loc()
         qual = fn.qualname
         for ts in BLOCKED_TS:
@@ -245,7 +245,7 @@ def cross_check_inlined(ck, prog, requests):
     methods = public_methods(cls)
     n = 0
     for name, fn in sorted(methods.items()):
-        if name in ('__init__', 'connect'):
+        if name.startswith('_') or name == 'connect':
             continue
         for ts in BLOCKED_TS:
             outs = eng.run(name, ts, overrides=method_overrides(fn), summarised=())
